@@ -20,21 +20,31 @@ theorem accumulate_eq_appendSeq (h : Heap) (rets : List Val) :
 /-- where the accumulator lives while the loop runs: nowhere yet, or in a cell whose chain ends beyond the heap the
     call started with -/
 def AccFresh (n : Nat) (hk : Heap) (acc : Val) : Prop :=
-  acc = .typedNil ∨ ∃ a, acc = .ref a ∧ a < hk.size ∧ n ≤ tailOf hk (fuelOf hk) a
+  acc = .typedNil ∨ ∃ a, acc = .ref a ∧ a < hk.size ∧ n ≤ tailOf hk (fuelOf hk) a ∧ isEmpty hk a = false
+
+/-- the accumulator is a nil `*Error` or a non-empty cell of the heap -/
+def AccShape (hk : Heap) (acc : Val) : Prop :=
+  acc = .typedNil ∨ ∃ a, acc = .ref a ∧ a < hk.size ∧ isEmpty hk a = false
 
 theorem frame_gen (h0 : Heap) (hwf0 : WF h0) : ∀ (rets : List Val) (hk : Heap) (acc : Val),
     WF hk → h0.size ≤ hk.size → (∀ i, i < h0.size → hk[i]? = h0[i]?) → AccFresh h0.size hk acc →
     (∀ id, Val.ref id ∈ rets → id < h0.size) →
-    ∀ i, i < h0.size →
-      (rets.foldl (fun a v => ((append a.1 a.2 [v]).1, ptrVal (append a.1 a.2 [v]).2.1)) (hk, acc)).1[i]? = h0[i]?
-  | [], hk, acc, _, _, hfr, _, _ => by intro i hi; exact hfr i hi
+    (∀ i, i < h0.size →
+      (rets.foldl (fun a v => ((append a.1 a.2 [v]).1, ptrVal (append a.1 a.2 [v]).2.1)) (hk, acc)).1[i]? = h0[i]?) ∧
+    AccShape (rets.foldl (fun a v => ((append a.1 a.2 [v]).1, ptrVal (append a.1 a.2 [v]).2.1)) (hk, acc)).1
+      (rets.foldl (fun a v => ((append a.1 a.2 [v]).1, ptrVal (append a.1 a.2 [v]).2.1)) (hk, acc)).2
+  | [], hk, acc, _, _, hfr, hacc, _ => by
+    refine ⟨fun i hi => hfr i hi, ?_⟩
+    rcases hacc with h | ⟨a, h, ha, _, hne⟩
+    · exact Or.inl h
+    · exact Or.inr ⟨a, h, ha, hne⟩
   | v :: rest, hk, acc, hwf, hsz, hfr, hacc, hrets => by
     have hne : acc ≠ .nilIface := by
       rcases hacc with h | ⟨a, h, _⟩ <;> rw [h] <;> simp
     have hids : ∀ id, Val.ref id ∈ acc :: [v] → id < hk.size := by
       intro id hmem
       rcases List.mem_cons.mp hmem with heq | hmem
-      · rcases hacc with h | ⟨a, h, ha, _⟩
+      · rcases hacc with h | ⟨a, h, ha, _, _⟩
         · rw [h] at heq; cases heq
         · rw [h] at heq; cases heq; exact ha
       · have : Val.ref id = v := by simpa using hmem
@@ -47,7 +57,7 @@ theorem frame_gen (h0 : Heap) (hwf0 : WF h0) : ∀ (rets : List Val) (hk : Heap)
       have hf : l.length ≤ fuelOf hk := by unfold fuelOf; omega
       rw [c'.chain_eq _ hf] at hmem
       have h1 := (hm _ hmem).2
-      rcases hacc with h | ⟨a', h, _, ht⟩
+      rcases hacc with h | ⟨a', h, _, ht, _⟩
       · rw [h] at ha; cases ha
       · rw [h] at ha; cases ha; omega
     have hna : NoAlias hk acc [v] := by
@@ -63,7 +73,7 @@ theorem frame_gen (h0 : Heap) (hwf0 : WF h0) : ∀ (rets : List Val) (hk : Heap)
       · exact hfr i hi
       · intro id hid
         rw [accOf_of_ne acc _ hne] at hid
-        rcases hacc with h | ⟨a, h, _, ht⟩
+        rcases hacc with h | ⟨a, h, _, ht, _⟩
         · rw [h] at hid; cases hid
         · rw [h] at hid; cases hid; omega
     have hacc' : AccFresh h0.size (append hk acc [v]).1 (ptrVal (append hk acc [v]).2.1) := by
@@ -71,11 +81,11 @@ theorem frame_gen (h0 : Heap) (hwf0 : WF h0) : ∀ (rets : List Val) (hk : Heap)
       | none => left; simp [ptrVal]
       | some r =>
         right
-        refine ⟨r, by simp [ptrVal], D.rootLt r hr, ?_⟩
+        refine ⟨r, by simp [ptrVal], D.rootLt r hr, ?_, root_nonempty D r hr⟩
         rcases D.tail r hr with ht | ⟨heq, hacc2⟩
         · omega
         · rw [accOf_of_ne acc _ hne] at hacc2
-          rcases hacc with h | ⟨a, h, _, ht⟩
+          rcases hacc with h | ⟨a, h, _, ht, _⟩
           · rw [h] at hacc2; cases hacc2
           · rw [h] at hacc2; cases hacc2; rw [heq]; exact ht
     simp only [List.foldl_cons]
@@ -86,7 +96,12 @@ theorem frame_gen (h0 : Heap) (hwf0 : WF h0) : ∀ (rets : List Val) (hk : Heap)
 /-- no cell that existed before `Handle` started is modified by its accumulation loop -/
 theorem accumulate_frame (h : Heap) (rets : List Val) (hwf : WF h) (hids : ∀ id, Val.ref id ∈ rets → id < h.size) :
     ∀ i, i < h.size → (accumulate h rets).1[i]? = h[i]? :=
-  frame_gen h hwf rets h .typedNil hwf (Nat.le_refl _) (fun _ _ => rfl) (Or.inl rfl) hids
+  (frame_gen h hwf rets h .typedNil hwf (Nat.le_refl _) (fun _ _ => rfl) (Or.inl rfl) hids).1
+
+/-- the accumulator `Handle` ends with is a nil `*Error` or a non-empty cell -/
+theorem accumulate_shape (h : Heap) (rets : List Val) (hwf : WF h) (hids : ∀ id, Val.ref id ∈ rets → id < h.size) :
+    AccShape (accumulate h rets).1 (accumulate h rets).2 :=
+  (frame_gen h hwf rets h .typedNil hwf (Nat.le_refl _) (fun _ _ => rfl) (Or.inl rfl) hids).2
 
 /-- the aggregate holds exactly the children's errors, in order -/
 theorem accumulate_items (h : Heap) (rets : List Val) (hwf : WF h) (hids : ∀ id, Val.ref id ∈ rets → id < h.size) :
@@ -121,5 +136,35 @@ theorem accumulate_keeps_items (h : Heap) (rets : List Val) (hwf : WF h)
     exact (Array.getElem?_eq_some_iff.mp this).1
   rw [items_eq_of_chain hwf' c' hid', items_eq_of_chain hwf c hid]
   exact filterMap_congr' _ _ l (fun i hi => by rw [hfr i (hm i hi).2])
+
+
+/-- `return result.ErrorOrNil()`: the interface value `Handle` returns is nil exactly when no delivery returned an
+    error — a nil interface, a typed nil of either kind and an empty `*Error` all count as "no error" (`argItems`) —
+    and otherwise it is the non-nil accumulated `*Error` -/
+theorem returned_nil_iff (h : Heap) (rets : List Val) (hwf : WF h) (hids : ∀ id, Val.ref id ∈ rets → id < h.size) :
+    returned h rets = .nilIface ↔ ∀ v ∈ rets, argItems h v = [] := by
+  obtain ⟨hit, hwf'⟩ := accumulate_items h rets hwf hids
+  have hflat : rets.flatMap (argItems h) = [] ↔ ∀ v ∈ rets, argItems h v = [] := by
+    simp [List.flatMap_eq_nil_iff]
+  rw [← hflat, ← hit]
+  unfold returned
+  rcases accumulate_shape h rets hwf hids with hs | ⟨a, hs, ha, hne⟩
+  · rw [hs]; simp [errorOrNil, argItems, isNil]
+  · rw [hs]
+    simp only [errorOrNil, hne, argItems]
+    constructor
+    · intro hx; cases hx
+    · intro hx; exact absurd hx (items_ne_nil hwf' ha hne)
+
+/-- and when it is not nil it is a `*Error` that holds exactly the errors of this record's deliveries -/
+theorem returned_ref (h : Heap) (rets : List Val) (hwf : WF h) (hids : ∀ id, Val.ref id ∈ rets → id < h.size)
+    (hne : returned h rets ≠ .nilIface) :
+    ∃ r, returned h rets = .ref r ∧ items (accumulate h rets).1 r = rets.flatMap (argItems h) := by
+  obtain ⟨hit, _⟩ := accumulate_items h rets hwf hids
+  unfold returned at hne ⊢
+  rcases accumulate_shape h rets hwf hids with hs | ⟨a, hs, _, hnon⟩
+  · rw [hs] at hne; simp [errorOrNil] at hne
+  · rw [hs] at hit ⊢
+    exact ⟨a, by simp [errorOrNil, hnon], by simpa [argItems] using hit⟩
 
 end ML
